@@ -317,4 +317,23 @@ PROPS = {
         'trusted_base': [],
         'assumptions': [],
     },
+    'C16': {
+        'lean_targets': ['Cqos.Props.C16'],
+        'theorems': ['Cqos.C16.c16_stop_step', 'Cqos.C16.c16_exit_bound', 'Cqos.C16.c16_quiet', 'Cqos.C16.c16_unfixed_cycle',
+                     'Cqos.C16.c16_join_stop', 'Cqos.C08.c08_v1_frozen', 'Cqos.C02.c02_subsequence', 'Cqos.C03.c03_prefix'],
+        'runs': [{'cmd': 'stepper', 'args': ['-family', 'stops']}, {'cmd': 'jstepper', 'args': ['-family', 'mixed']}],
+        'monitor_prefix': ['C16'],
+        'level': 'proof',
+        'level_text': ('Lean theorems on the v1 machine (with the repaired waitCalcTactic, defect D3): in every reachable stopped, '
+                       'non-terminated state - all handlers busy, consumer not reading, producers blocked, release never sent - the '
+                       'stop-preferring step is enabled, changes no delivery and strictly decreases a measure <= 7 + 2*#priorities, so '
+                       'at most that many steps lead to done; after done nothing is ever delivered; join: the stop branch is enabled in '
+                       'run and while awaiting the release and ends the discipline with a frozen event log; deliveries are an in-order '
+                       'duplicate-free sub-sequence (C02/C03). The unrepaired spinning cycle is kept as a theorem. The stepper breaks the '
+                       'breaker / cancels the context at every script position and requires every hooked call to return'),
+        'level_note': 'partial: the time Go\'s select needs to pick the ready stop case among other ready cases is a runtime property; ' + 'trusted: correspondence by differential stepping; the loop-top select of v1 and the blocking Stop() call itself by black-box runs',
+        'rule': 'stepper family stops (Stop or cancel at a random round, 0..H in flight) and the join stepper with stop while awaiting release',
+        'trusted_base': [],
+        'assumptions': ['select eventually takes a ready case'],
+    },
 }
